@@ -1,3 +1,173 @@
-/- C12 — property theorems only (helper lemmas live in `Rooc/Proofs`). -/
+/-
+C12 — compiled output is itself a valid program with the same meaning.  PROPERTY THEOREMS ONLY
+(helper lemmas: `Rooc/Proofs/DisplayPratt.lean`).
+
+`Display.items` is the binary-operator skeleton of `impl Display for Exp` (a parenthesised group and
+every non-`BinOp` node are single leaf items), `Display.ReadsAs` the documented grouping rules
+(precedence climbing with `BinOp::precedence` / `is_left_associative`, regenerated into `Gen.Prec`),
+`Display.formatVarParts` the sign / magnitude decisions of `format_var`.
+-/
+import Rooc.Display
+import Rooc.DisplayItems
+import Rooc.Proofs.Field
+import Rooc.Proofs.DisplayPratt
+import Rooc.Proofs.DisplayTerm
+import Rooc.Proofs.DisplayText
+import Mathlib.Tactic.Linarith
+import Mathlib.Data.Rat.Floor
 namespace Rooc.Props.C12
+open Rooc Rooc.Display Arith
+set_option linter.unusedSectionVars false
+
+variable {K : Type} [Field K] [LinearOrder K] [IsStrictOrderedRing K] [FloorRing K]
+
+/-! ### parentheses of the expression rendering -/
+
+/-- The grouping rules in their documented form: a right operand needs parentheses iff its operator
+binds weaker than the parent, or equally and the parent is left-associative. -/
+theorem needRight_iff {α : Type} (o o' : BinOp) (a b : Exp α) :
+    needRight o (.bin o' a b) = true ↔
+      Gen.binPrec o' < Gen.binPrec o ∨ (Gen.binPrec o' = Gen.binPrec o ∧ Gen.binLeftAssoc o = true) := by
+  cases o <;> cases o' <;> simp [needRight, lbp, rbp, Gen.binPrec, Gen.binLeftAssoc]
+
+/-- … a left operand needs them iff it binds weaker, or equally and it is itself right-associative. -/
+theorem needLeft_iff {α : Type} (o o' : BinOp) (a b : Exp α) :
+    needLeft o (.bin o' a b) = true ↔
+      Gen.binPrec o' < Gen.binPrec o ∨ (Gen.binPrec o' = Gen.binPrec o ∧ Gen.binLeftAssoc o' = false) := by
+  cases o <;> cases o' <;> simp [needLeft, lbp, rbp, Gen.binPrec, Gen.binLeftAssoc]
+
+/-- The rendering only parenthesises an operand that binds strictly weaker than its parent. -/
+theorem placed_iff {α : Type} (o o' : BinOp) (a b : Exp α) :
+    placed o (.bin o' a b) = true ↔ Gen.binPrec o' < Gen.binPrec o := by
+  simp [placed]
+
+/-- The printed parentheses suffice: whenever the rendering puts parentheses (at least) where the
+grouping rules need them — `noDefect`, a decidable predicate on the tree — the item stream of
+`Display` is read back as exactly the tree that was printed.  The excluded shapes are real, see the
+counterexamples below. -/
+theorem exp_display_parens_sufficient_partial {α : Type} (e : Exp α) (h : noDefect e = true) :
+    ReadsAs (items none e) e := by
+  have := core (skel e) e (Nat.le_refl _) none 0 [] e [] h ?_ .stopNil
+  · simpa [ReadsAs] using this
+  · cases e with
+    | bin o l r => right; exact ⟨by have := lbp_pos o; simp [topFits]; omega, trivial⟩
+    | _ => left; exact ⟨_, rfl, rfl⟩
+
+/-- The text `impl Display for Exp` produces IS the item stream the theorems talk about: items
+separated by single blanks, a group as `( … )` around the rendering of its content. -/
+theorem display_text_is_item_stream {α : Type} (tok : α → String) (e : Exp α) :
+    displayExp tok e = renderItems tok (items none e) :=
+  showE_eq_renderItems tok none e
+
+/-- A right operand is rendered without the parentheses it needs exactly when it sits at its
+parent's own precedence and the parent is left-associative (every operator but `implies`) … -/
+theorem right_defect_iff {α : Type} (o o' : BinOp) (a b : Exp α) :
+    (needRight o (.bin o' a b) = true ∧ placed o (.bin o' a b) = false) ↔
+      (Gen.binPrec o' = Gen.binPrec o ∧ Gen.binLeftAssoc o = true) := by
+  cases o <;> cases o' <;> simp [needRight, placed, lbp, rbp, Gen.binPrec, Gen.binLeftAssoc]
+
+/-- … and a left operand exactly when it is an `implies` under `implies` or `iff`. -/
+theorem left_defect_iff {α : Type} (o o' : BinOp) (a b : Exp α) :
+    (needLeft o (.bin o' a b) = true ∧ placed o (.bin o' a b) = false) ↔
+      (o' = .implies ∧ (o = .implies ∨ o = .iff)) := by
+  cases o <;> cases o' <;> simp [needLeft, placed, lbp, rbp, Gen.binPrec, Gen.binLeftAssoc]
+
+/-- The repaired rule of fixes/C12-display-parens.diff (parenthesise an operand exactly where the
+grouping rules need it, by side) reads back as the printed tree for EVERY expression. -/
+theorem exp_display_fixed_roundtrip {α : Type} (e : Exp α) : ReadsAs (itemsFixed none e) e := by
+  have := coreFixed (skel e) e (Nat.le_refl _) none 0 [] e [] ?_ .stopNil
+  · simpa [ReadsAs] using this
+  · cases e with
+    | bin o l r => right; exact ⟨by have := lbp_pos o; simp [topFits]; omega, trivial⟩
+    | _ => left; exact ⟨_, rfl, rfl⟩
+
+/-- non-vacuity: `x * (y + 1) - z / 2 + w` has no defective shape. -/
+example : noDefect (.bin .add (.bin .sub (.bin .mul (.var "x") (.bin .add (.var "y") (.num 1)))
+    (.bin .div (.var "z") (.num 2))) (.var "w") : Exp Int) = true := by decide
+
+/-- `x / (2 * 3)` is rendered `x / 2 * 3`: the stream reads back as `(x / 2) * 3`. -/
+theorem exp_display_div_counterexample :
+    let e : Exp Int := .bin .div (.var "x") (.bin .mul (.num 2) (.num 3))
+    noDefect e = false ∧
+    items none e = [.atom (.var "x"), .infix .div, .atom (.num 2), .infix .mul, .atom (.num 3)] ∧
+    ReadsAs (items none e) (.bin .mul (.bin .div (.var "x") (.num 2)) (.num 3)) := by
+  refine ⟨by decide, by simp [items, Gen.binPrec], ?_⟩
+  simp only [items, Gen.binPrec, ReadsAs, List.cons_append, List.nil_append, Nat.lt_irrefl, if_false]
+  refine .mk rfl (.step (by decide) (.mk rfl (.stopOp (by decide))) ?_)
+  exact .step (by decide) (.mk rfl .stopNil) .stopNil
+
+/-- `x - (3 - 1)` is rendered `x - 3 - 1` (the `Sub` special case looks at the leafness of the inner
+right operand `1`, not of the operand `3 - 1`): the stream reads back as `(x - 3) - 1`. -/
+theorem exp_display_sub_counterexample :
+    let e : Exp Int := .bin .sub (.var "x") (.bin .sub (.num 3) (.num 1))
+    noDefect e = false ∧
+    items none e = [.atom (.var "x"), .infix .sub, .atom (.num 3), .infix .sub, .atom (.num 1)] ∧
+    ReadsAs (items none e) (.bin .sub (.bin .sub (.var "x") (.num 3)) (.num 1)) := by
+  refine ⟨by decide, by simp [items, isLeaf, Gen.binPrec], ?_⟩
+  simp only [items, isLeaf, Gen.binPrec, ReadsAs, List.cons_append, List.nil_append, Nat.lt_irrefl, if_false, if_true]
+  refine .mk rfl (.step (by decide) (.mk rfl (.stopOp (by decide))) ?_)
+  exact .step (by decide) (.mk rfl .stopNil) .stopNil
+
+/-- `x - (y + 1)` is rendered `x - y + 1`: the stream reads back as `(x - y) + 1`. -/
+theorem exp_display_sub_add_counterexample :
+    let e : Exp Int := .bin .sub (.var "x") (.bin .add (.var "y") (.num 1))
+    noDefect e = false ∧ subDivDefect e = true ∧
+    ReadsAs (items none e) (.bin .add (.bin .sub (.var "x") (.var "y")) (.num 1)) := by
+  refine ⟨by decide, by simp [subDivDefect, needRight, placed, lbp, rbp, Gen.binPrec, Gen.binLeftAssoc], ?_⟩
+  simp only [items, isLeaf, Gen.binPrec, ReadsAs, List.cons_append, List.nil_append, Nat.lt_irrefl, if_false, if_true]
+  refine .mk rfl (.step (by decide) (.mk rfl (.stopOp (by decide))) ?_)
+  exact .step (by decide) (.mk rfl .stopNil) .stopNil
+
+/-! ### the sign of a rendered term -/
+
+/-- A rendered term denotes its coefficient — `termValue (formatVarParts v) = v` — for every finite
+coefficient that is not a negative number closer to zero than the tolerance `tol = 10^-5` of
+`float_lt`. -/
+theorem term_roundtrip_partial (v : K) (h : ¬ (-(tol : K) < v ∧ v < 0)) :
+    termValue (formatVarParts (Ext.fin v : Ext K)) = .fin v := by
+  unfold formatVarParts termValue
+  rw [floatLt_zero]
+  by_cases h1 : v = 1
+  · subst h1; simp [Arith.eq, Ext.eq, Arith.one, Arith.ofInt, Arith.neg, Ext.neg]
+  by_cases h2 : v = -1
+  · subst h2
+    have : ¬ ((1:K) < tol) := not_lt.mpr tol_le_one
+    simp [Arith.eq, Ext.eq, Arith.one, Arith.ofInt, Arith.neg, Ext.neg, this]
+  have e1 : Arith.eq (Ext.fin v : Ext K) one = false := by simp [Arith.eq, Ext.eq, Arith.one, Arith.ofInt, h1]
+  have e2 : Arith.eq (Ext.fin v : Ext K) (Arith.neg one) = false := by
+    simp [Arith.eq, Ext.eq, Arith.one, Arith.ofInt, Arith.neg, Ext.neg, h2]
+  simp only [e1, e2, Bool.or_false, Bool.false_eq_true, if_false]
+  by_cases hv : v < 0
+  · have : ¬ (|v| < tol) := by
+      rw [abs_of_neg hv]; intro hh; exact h ⟨by linarith, hv⟩
+    simp [hv, this, Arith.abs, Ext.abs, Arith.neg, Ext.neg]
+  · simp [hv, Arith.abs, Ext.abs]
+
+/-- the hypothesis of `term_roundtrip_partial` holds e.g. for `-3`, `0` and `1e-9`. -/
+example : ¬ (-(tol : ℚ) < -3 ∧ (-3 : ℚ) < 0) := by
+  intro h; have := tol_le_one (K := ℚ); linarith [h.1]
+
+/-- Inside the excluded region the sign is lost: the coefficient `-tol/10` (= `-0.000001`, inside the
+property's stated range) is rendered like `+tol/10` (known finding C12-format-var-sign). -/
+theorem term_roundtrip_counterexample :
+    termValue (formatVarParts (Ext.fin (-(tol / 10)) : Ext K)) = .fin ((tol : K) / 10) ∧
+      (Ext.fin (-(tol / 10)) : Ext K) ≠ .fin ((tol : K) / 10) := by
+  have hp := tol_pos (K := K)
+  have h1 : ¬ (-(tol / 10) : K) = 1 := by intro h; linarith
+  have h2 : ¬ (-(tol / 10) : K) = -1 := by intro h; have := tol_le_one (K := K); linarith
+  have hneg : (-(tol / 10) : K) < 0 := by linarith
+  have habs : |(-(tol / 10) : K)| < tol := by rw [abs_of_neg hneg]; linarith
+  constructor
+  · unfold formatVarParts termValue
+    rw [floatLt_zero]
+    have e1 : Arith.eq (Ext.fin (-(tol / 10)) : Ext K) one = false := by
+      simp [Arith.eq, Ext.eq, Arith.one, Arith.ofInt, h1]
+    have e2 : Arith.eq (Ext.fin (-(tol / 10)) : Ext K) (Arith.neg one) = false := by
+      simp [Arith.eq, Ext.eq, Arith.one, Arith.ofInt, Arith.neg, Ext.neg, h2]
+    simp only [e1, e2, Bool.or_false, Bool.false_eq_true, if_false]
+    have habs' : ¬ ((tol : K) ≤ |(tol : K) / 10|) := by
+      rw [abs_of_pos (by linarith)]; linarith
+    simp [hneg, habs', Arith.abs, Ext.abs]
+  · intro h; injection h with h; linarith
+
 end Rooc.Props.C12
